@@ -18,6 +18,7 @@ Inductive dstmt :=
 | DIf (c : dexpr) (t e : list dstmt)
 | DSwitch (subject : string) (cases : list (list string * list dstmt))
 | DReturn (v : string)
+| DCall (src : string)                (* a call made for its effect: recorded, in order *)
 | DOther (kind : string).
 
 (* the inputs of a run: which capabilities the server has, which equalities between an input and
@@ -68,7 +69,12 @@ Fixpoint exec (fuel : nat) (env : denv) (l : list dstmt) (s : store) : dres :=
               let v := match sget s subj with Some x => x | None => e_field env subj end in
               continue (exec f env (pick_case v cases) s)
           | DReturn v => Returned s v
+          | DCall c => exec f env rest (("!call", c) :: s)
           | DOther _ => Stuck
           end
       end
   end.
+
+(* the calls recorded by a run, in the order they were made *)
+Definition calls_of (s : store) : list string :=
+  rev (flat_map (fun kv => if String.eqb (fst kv) "!call" then [snd kv] else []) s).
